@@ -287,6 +287,7 @@ class Rec(object):
         self.universe_at = []   # (t, assets) as seen by the PCM's universe at each PCM call
         self.exc = None
         self.seq = 0            # global order of recorded happenings
+        self.live_stats = None
 
     def tick(self):
         self.seq += 1
@@ -380,6 +381,8 @@ def attach_monitors(session, rec, cfg):
                  "held": dict((a, v["quantity"]) for a, v in
                               broker.get_portfolio_as_dict(session.portfolio_id).items())}
         rec.pcm.append(entry)
+        if stats is not None:
+            rec.live_stats = stats      # allocations recorded so far, also when the run fails later
         try:
             orders = inner(dt, stats=stats)
         except Exception as e:
@@ -510,8 +513,11 @@ def run_session(cfg, market, monitors=True, dirpath=None, shared_source=None, ho
                 out.exc_at = None
         pf = session.broker.portfolios[session.portfolio_id]
         out.equity = [(epoch(t), float(v)) for t, v in session.equity_curve]
-        out.allocs = [dict((("Date", epoch(v)) if k == "Date" else (k, float(v))) for k, v in d.items())
-                      for d in (session.target_allocations or [])]
+        conv = lambda lst: [dict((("Date", epoch(v)) if k == "Date" else (k, float(v))) for k, v in d.items())
+                            for d in (lst or [])]
+        out.allocs = conv(session.target_allocations)
+        # what the construction model had recorded when the run stopped (equal to the above after a full run)
+        out.allocs_live = conv(out.rec.live_stats["target_allocations"]) if out.rec.live_stats else out.allocs
         out.history = [(epoch(e.dt), e.type, mask_ids(e.description), float(e.debit), float(e.credit),
                         float(e.balance)) for e in pf.history]
         out.cash = float(pf.cash)
